@@ -80,6 +80,8 @@ pub fn by_hash<T: Kb, H: Hasher>(a: &T, h: &mut H) { h.write_u8(a.kb() & 0x5a); 
 pub fn ck<T: Kb>(x: &T) -> u8 { x.kb() & 0x3c }
 pub fn ck_cmp<T: Kb>(a: &T, b: &T) -> Ordering { ck(a).cmp(&ck(b)) }
 pub fn ck_pcmp<T: Kb>(a: &T, b: &T) -> Option<Ordering> { Some(ck(a).cmp(&ck(b))) }
+/// a genuinely partial order that is still coherent with ck / ck_eq (0x0c is incomparable with everything but itself); only used when Ord is not derived
+pub fn ck_pcmp_p<T: Kb>(a: &T, b: &T) -> Option<Ordering> { let (x, y) = (ck(a), ck(b)); if x == y { Some(Ordering::Equal) } else if x == 0x0c || y == 0x0c { None } else { Some(x.cmp(&y)) } }
 pub fn ck_eq<T: Kb>(a: &T, b: &T) -> bool { ck(a) == ck(b) }
 pub fn ck_hash<T: Kb, H: Hasher>(a: &T, h: &mut H) { ck(a).hash(h) }
 
@@ -153,6 +155,7 @@ class ECrate:
         self.kani_wall = 0.0
         self.check_wall = 0.0
         self.harness_timeout = 240
+        self.missing_impl_re = None     # families whose harness calls every derived form set this (see run_family)
 
     def add(self, prog):
         self.progs.append(prog)
@@ -224,6 +227,9 @@ unexpected_cfgs = { level = "allow", check-cfg = ['cfg(kani)'] }
                         pr = byname.get(mm.group(1))
                         if pr is not None and pr.def_lines[0] <= sp["line_start"] <= pr.def_lines[1]:
                             in_def = True
+                if not in_def and self.missing_impl_re is not None and re.search(self.missing_impl_re, m["message"]):
+                    # the harness calls a derived impl that does not exist: the fault is in what the macro generated, not in the harness
+                    in_def = True
                 rec = {"message": m["message"], "code": (m.get("code") or {}).get("code"), "rendered": (m.get("rendered") or "")[:1500], "in_definition": in_def}
                 if prog:
                     errs.setdefault(prog, []).append(rec)
@@ -391,7 +397,7 @@ def replay_file(path):
     return 1
 
 
-def run_family(ctx, pid, progs, canary=None, per=60, compile_violation=True, extra_support="", jobs=NCPU, timeout=3000):
+def run_family(ctx, pid, progs, canary=None, per=60, compile_violation=True, extra_support="", jobs=NCPU, timeout=3000, missing_impl_re=None):
     """Batch programs into crates, triage with rustc, prove every harness with Kani, turn failures into violations.
     A canary program (deliberately false contract) must be refuted in the first crate."""
     stats = {"programs": len(progs), "kani_harnesses": 0, "kani_verified": 0, "kani_wall_s": 0.0, "rustc_wall_s": 0.0,
@@ -402,6 +408,7 @@ def run_family(ctx, pid, progs, canary=None, per=60, compile_violation=True, ext
     stats["harnesses_assert_mode"] = sum(p.text.count("#[kani::proof]") for p in progs)
     for ci in range(0, len(progs), per):
         c = ECrate(pid, "c%02d" % (ci // per), extra_support)
+        c.missing_impl_re = missing_impl_re
         for p in progs[ci:ci + per]:
             c.add(p)
         if ci == 0 and canary is not None:
